@@ -962,7 +962,13 @@ func OneShotCVC5Int(assertions []*Term, wantModel []*Term, timeoutMs int) (SatRe
 	}
 	switch strings.TrimSpace(lines[0]) {
 	case "unsat":
-		if strings.Contains(text, "(error") {
+		// the get-value that follows an unsat answer is rejected by cvc5; any other error is inconclusive
+		rest := ""
+		if len(lines) > 1 {
+			rest = lines[1]
+		}
+		rest = strings.ReplaceAll(rest, `(error "Cannot get value unless after a SAT or UNKNOWN response.")`, "")
+		if strings.Contains(rest, "(error") {
 			return Unknown, nil, fmt.Errorf("cvc5: %s", text)
 		}
 		return Unsat, nil, nil
